@@ -7,27 +7,48 @@ from vcheck import *
 
 P = "Cppcms.C03.Props."
 OBLIGATIONS = [
+    # 1. connection write path
     (P + "pending_invariant", "every trace of nonblocking/async/blocking writes x every socket answer: wire ++ in-flight ++ pending_output_ = concat of formatted outputs (while no hard error)"),
     (P + "wire_complete_when_drained", "nothing pending or in flight => wire = everything handed over, once, in order"),
     (P + "wire_prefix_on_failure", "the event on which a write fails for good leaves a prefix of the handed data on the wire"),
     (P + "async_write_drains", "if the socket takes >= 1 byte per writable event the async handler completes within |data| steps with the data on the wire once"),
     (P + "write_during_async_reorders", "the discipline hypothesis (no write while an async write is in flight) is necessary: concrete reordering"),
+    # 2. framing
     (P + "chunked_roundtrip", "RFC 7230 chunked decoder (Spec) o make_chunked_wrapper calls = concatenation of the writes, exact end"),
     (P + "chunk_size_roundtrip", "std::hex chunk sizes parse back (1*HEXDIG)"),
     (P + "fcgi_roundtrip", "FastCGI record grammar (Spec) o format_output calls: STDOUT stream = concatenation of the inputs"),
     (P + "fcgi_records_wellformed", "every STDOUT record 1..65535 bytes; exactly one empty STDOUT then one END_REQUEST, last"),
-    (P + "device_conservation", "either device, every io mode incl. raw, any buffer size, every sequence of sputn/sputc/sync/flush/setbuf/full_buffering: after close nothing buffered, bytes passed on = input (raw: minus its header block), eof exactly once, with the last write (also after the extra flush_async_chunk)"),
+    # 3. stream buffers
+    (P + "device_conservation", "either device, every io mode incl. raw, any buffer size, every sequence of sputn/sputc/sync/flush/setbuf/full_buffering: after close nothing buffered, bytes passed on = input (raw: minus its header block), eof exactly once with the last write -- and ANY number of later flushes/setbufs sends no byte and no second eof"),
     (P + "device_conservation_running", "at every moment (non-raw): passed to connection::write ++ buffered = written into the device"),
     (P + "raw_header_block_stripped", "raw modes: of a stream starting with a CGI header block the device passes on exactly what follows it; the lines reach set_response_headers via add_header in order"),
-    (P + "eof_flag_toggles_counterexample", "documented quirk outside the contexts' usage: close; flush; flush announces eof twice"),
     (P + "cache_copy_identical", "copy_buf: bytes passed to the next buffer = copied_data() = bytes written, for every op sequence + close"),
+    (P + "gzip_bookkeeping", "gzip_buf, any deflater/buffer size: deflater inputs in order = app bytes, Z_FINISH exactly once and last, bytes passed on = deflater outputs; inflate hypothesis => body decompresses to app bytes"),
+    # 4. framing of a whole response
     (P + "framing_roundtrip_http", "HTTP: from the state set_response_headers prepared, every call sequence of a finalized response: no violation, RFC 7230 client reads exactly one head and body = concat inputs (Content-Length / chunked / until-close)"),
     (P + "framing_roundtrip_fcgi", "FastCGI: records parse to a STDOUT stream = exactly the header block ++ concat inputs"),
     (P + "framing_roundtrip_scgi", "SCGI/CGI: header block once, then the inputs"),
     (P + "header_block_once_xcgi", "SCGI/FastCGI: the block built from the header set (clean lines) is exactly one header block: map entries, added headers/cookies, blank line"),
-    (P + "client_sees_app_bytes", "composition device -> framing -> connection for every schedule: wire de-frames to one head and body = bytes written"),
-    (P + "client_sees_app_bytes_gzip_cached", "full chain gzip_buf -> copy_buf -> device -> framing -> connection: inflate body = app bytes, cached copy = body sent"),
-    (P + "gzip_bookkeeping", "gzip_buf, any deflater/buffer size: deflater inputs in order = app bytes, Z_FINISH exactly once and last, bytes passed on = deflater outputs; inflate hypothesis => body decompresses to app bytes"),
+    # 5. response_headers
+    (P + "header_names_case_insensitive", "ieq (protocol::compare == 0) <=> names equal after ASCII lower-casing"),
+    (P + "headers_last_set_wins", "any sequence of set_header/add_header/set_cookie: get_header(n) = value of the last assignment to n under any spelling (empty value erases)"),
+    (P + "headers_unique_names", "the headers_ map never holds two entries whose names differ only in case"),
+    (P + "headers_added_in_order", "added headers and cookies are all kept, in insertion order"),
+    (P + "header_lines_shape", "header block lines = one Name: value per map entry, then the added ones"),
+    # 6. composition over the model the correspondence runs (runCase)
+    (P + "response_trace", "stage 1: every script in the usage contract x io mode x buffer/gzip config x cache x request: the response ends Done (headers handed over once before the first byte; calls (w,false)*,(last,true),([],false)*; bytes = what left gzip_buf/copy_buf)"),
+    (P + "body_is_written_or_gzip_of_it", "Done: without gzip_buf Z = bytes written; with it Z = deflate(bytes written) with Z_FINISH once and last => inflate Z = bytes written"),
+    (P + "gzip_decision_matches_headers", "every script: gzip_buf exists iff need_gzip() held at out(), and exactly then out() added Content-Encoding: gzip before handing the headers over (Enc)"),
+    (P + "response_wire_eq_scgi", "SCGI: for every script/mode/config/cache/schedule: nothing violated/given up/broken/pending and wire = xcgi header block ++ bytes that left the chain"),
+    (P + "response_wire_eq_fcgi", "FastCGI: same; wire = well-formed records for request 1 whose STDOUT stream = header block ++ bytes that left the chain"),
+    (P + "response_wire_eq_http", "HTTP 1.0/1.1 +- keep-alive: same, given clean headers and a respected Content-Length: wire = one head ++ framed body, RFC 7230 client decodes exactly the bytes that left the chain"),
+    (P + "http_ready_of_clean_headers", "the header hypothesis of response_wire_eq_http follows from conditions on the application's header set alone"),
+    (P + "client_sees_app_bytes", "generic form: for any protocol presentation with a round-trip theorem the independent de-framer returns one head and the bytes that left the chain"),
+    (P + "done_body_unique", "the Z of the theorems above is determined by the response"),
+    (P + "store_page_stores_sent_bytes", "store_page on an armed response stores, under the variant compressed-iff-gzip_buf, exactly the bytes Z sent towards the client; read-back returns Z"),
+    (P + "cache_miss_stores_sent_bytes", "whole scripts: prelude, fetch_page miss, any non-finalizing writes/flushes not touching Content-Encoding/Type, store_page, any post-final actions: cache holds Z = what was sent"),
+    (P + "cached_hit_serves_stored_bytes_once", "whole scripts: fetch_page hit => body = stored page exactly (no gzip_buf, no copy_buf), Content-Encoding: gzip added iff compressed variant, rest of the script not run, cache unchanged"),
+    (P + "cache_roundtrip", "request A misses and stores; request B selecting that variant is served exactly A's Z"),
 ]
 
 CONFIGS_QUICK = [(-1, 16384, 1024), (300, 37, 5)]
